@@ -310,12 +310,16 @@ def allowed_spin_blocks(expr: Expr, target_idx: str) -> tuple[str]:
             object_idx_maps = []
             for block in allowed_object_blocks:
                 idx_map = {}
+                valid = True
                 for spin, idx in zip(block, obj_indices):
+                    # an index that occurs more than once on the object can
+                    # only have a single spin -> the block is not possible
                     if idx in idx_map and idx_map[idx] != spin:
-                        raise ValueError("Found invalid allowed spin block "
-                                         f"{block} for {obj}.")
+                        valid = False
+                        break
                     idx_map[idx] = spin
-                object_idx_maps.append(idx_map)
+                if valid:
+                    object_idx_maps.append(idx_map)
             term_idx_maps.append((object_idx_maps, n_target))
         # - sort the allowed_tensor_blocks such that tensors with a high
         #   number of target indices are preferred
